@@ -64,6 +64,19 @@ func runC02(c *Cfg) {
 		if n, err := strconv.Atoi(os.Getenv("C02_MAXSTACK")); err == nil && n > 0 {
 			debug.SetMaxStack(n)
 		}
+		if ms, err := strconv.Atoi(os.Getenv("C02_CLI_CPUMS")); err == nil && ms > 0 {
+			// the same CPU-time watchdog as in the workers: a command that spins is stopped
+			// with exit status 98 after its CPU budget, whatever the load of the machine
+			go func() {
+				for {
+					time.Sleep(20 * time.Millisecond)
+					if c02CPU() > time.Duration(ms)*time.Millisecond {
+						fmt.Fprintln(os.Stderr, "C02-WATCHDOG: CPU time above limit")
+						os.Exit(c02ExitTime)
+					}
+				}
+			}()
+		}
 		args := strings.Split(os.Getenv("C02_CLI_ARGS"), "\x1f")
 		os.Args = append([]string{"cue"}, args...)
 		os.Exit(cmd.Main())
@@ -149,6 +162,7 @@ func runC02(c *Cfg) {
 	}
 
 	cpuMs := c.Pick(20000, 40000)
+	c02CLICPUms = cpuMs
 	pool := &c02Pool{dir: filepath.Join(c.Out, "workers"), wall: time.Duration(c.Pick(60, 120)) * time.Second}
 	defer pool.closeAll()
 	workers := min(runtime.NumCPU(), 16)
@@ -177,6 +191,15 @@ func runC02(c *Cfg) {
 		}()
 	}
 	for i, cs := range cases {
+		pool.mu.Lock()
+		settled := pool.confirmed >= 8 && pool.skipped > 40
+		pool.mu.Unlock()
+		if settled {
+			// 8 confirmed and 40 more dead workers: the verdict is settled, every further
+			// dying case only costs its CPU budget
+			c.Count(fmt.Sprintf("cases-not-run-after-verdict-settled/%d", len(cases)-i))
+			break
+		}
 		next <- cs
 		if i%23 == 0 || cs.kind == "idiom" && (i%3 == 0 || i >= len(c02Idioms)-c02KnownTail) {
 			cliSample = append(cliSample, cs)
@@ -291,6 +314,9 @@ var c02GoTrace = regexp.MustCompile(`(?m)^(panic: |fatal error: |goroutine \d+ \
 // confirmed with Go's default limit (c02CLIConfirm).
 const c02CLIStack = 64 << 20
 
+// c02CLICPUms: CPU budget of one CLI command (set from the tier in runC02)
+var c02CLICPUms = 20000
+
 var (
 	c02CLIConfirmedMu sync.Mutex
 	c02CLIConfirmed   = map[string]bool{}
@@ -317,7 +343,7 @@ func c02CLIOnce(dir string, args []string, timeout time.Duration) (code int, std
 func c02CLIOnceStack(dir string, args []string, timeout time.Duration, stack int) (code int, stdout, stderr string, timedOut bool) {
 	cm := exec.Command(c02Self(), "C02", "-replay", "cli:"+args[0], "-out", dir)
 	cm.Dir = dir
-	cm.Env = append(os.Environ(), fmt.Sprintf("C02_MAXSTACK=%d", stack), "C02_CLI_ARGS="+strings.Join(args, "\x1f"), "GOMEMLIMIT=1GiB", "GOMAXPROCS=2",
+	cm.Env = append(os.Environ(), fmt.Sprintf("C02_MAXSTACK=%d", stack), fmt.Sprintf("C02_CLI_CPUMS=%d", c02CLICPUms), "C02_CLI_ARGS="+strings.Join(args, "\x1f"), "GOMEMLIMIT=1GiB", "GOMAXPROCS=2",
 		"CUE_CACHE_DIR="+filepath.Join(dir, ".cache"), "HOME="+dir, "GOTRACEBACK=single")
 	var so, se bytes.Buffer
 	cm.Stdout, cm.Stderr = &so, &se
@@ -378,6 +404,8 @@ func c02RunCLI(c *Cfg, sample []*c02Case) []*c02Failure {
 						// reporting (the machine may be loaded); the worker run of the same case
 						// reports a genuine timeout
 						c.Count("cli/wall-timeout")
+					case code == c02ExitTime:
+						f = &c02Failure{kind: "timeout", detail: fmt.Sprintf("cue %s: CPU time above %d ms", strings.Join(args, " "), c02CLICPUms), src: cs.src, origin: cs.origin + " [" + cs.kind + "]"}
 					case strings.Contains(se, "stack overflow") && !c02CLIConfirm(dir, args, c02RecursionSig(se), timeout):
 						// deep but finite recursion: fine with the default stack limit
 						c.Count("cli/stack-overflow-only-with-small-stack")
